@@ -200,7 +200,31 @@ struct Hierarchy {
 
 // Bulk vectors: expanded from (kind, seed) recorded in the case file.
 //   0 iid normal, 1 smooth low modes, 2 unit vector, 3 sparse spikes, 4 huge dynamic range, 5 constant
+// All generated vectors of a case can be scaled by one power of two (key vec_scale_exp of the case, set by the harness with
+// setVectorScaleExp before it builds its vectors): residual, smoothers, transfers, direct solver and cycles are linear in
+// (u, f), so a uniformly tiny or huge input must give the correspondingly scaled output - an absolute threshold somewhere
+// in the code under test (the code base's equals(x, 0.0) is one) breaks this. All oracle bounds are relative to the data.
+inline int& vectorScaleExp()
+{
+    static thread_local int e = 0;
+    return e;
+}
+inline void setVectorScaleExp(const KV& c, Outcome& o)
+{
+    vectorScaleExp() = (int)c.getI("vec_scale_exp", 0);
+    if (vectorScaleExp() != 0)
+        o.cls(vectorScaleExp() < 0 ? "vectors_scaled_tiny" : "vectors_scaled_huge");
+}
+inline Vector<double> makeVectorUnscaled(const PolarGrid& grid, int kind, uint64_t seed);
 inline Vector<double> makeVector(const PolarGrid& grid, int kind, uint64_t seed)
+{
+    Vector<double> v = makeVectorUnscaled(grid, kind, seed);
+    if (vectorScaleExp() != 0)
+        for (int i = 0; i < v.size(); i++)
+            v[i] = std::ldexp(v[i], vectorScaleExp());
+    return v;
+}
+inline Vector<double> makeVectorUnscaled(const PolarGrid& grid, int kind, uint64_t seed)
 {
     const int n = grid.numberOfNodes();
     Vector<double> v(n);
